@@ -357,6 +357,7 @@ def units(tier):
     from props.common import wrap as _wrap
     _wrap(us, "C12.run_reactions.cvode_restart_keeps_elapsed+remaining==requested", TM.unit_cvode_restart)
     _wrap(us, "C12.step_drivers.clock_advances_by_the_step_integrated", TM.unit_step_clock)
+    _wrap(us, "C12.kinetics.reacted_moles_capped_at_amount_present", TM.unit_reactant_nonnegative)
     return us
 
 
